@@ -1,7 +1,14 @@
 package main
 
 import (
+	"encoding/json"
+	"fmt"
+	"strings"
 	"time"
+
+	"0chain.net/chaincore/transaction"
+	"verif/lib/kvsc"
+	"verif/lib/mon"
 
 	"0chain.net/core/config"
 	"github.com/0chain/common/core/currency"
@@ -10,7 +17,7 @@ import (
 	"verif/lib/world"
 )
 
-func init() { checks["C01"] = c01 }
+func init() { checks["C01"] = c01; checks["C01:fan"] = c01fan }
 
 func c01(run *ev.Run) {
 	w := world.New(world.Options{})
@@ -29,6 +36,9 @@ func c01(run *ev.Run) {
 	}
 	acts = append(acts, send(w, "c0", world.SCAddresses["minersc"], constAmt(7), "7", 3))
 	acts = append(acts, send(w, "c0", "c0", constAmt(5), "self", 0))
+	// the same account id spelled in upper-case hex (ids are validated as hashes case-insensitively)
+	acts = append(acts, send(w, "c0", strings.ToUpper(w.Actors["c1"].ID), constAmt(9), "9-to-uppercase-c1", 0))
+	acts = append(acts, send(w, "c0", strings.ToUpper(w.Actors["c0"].ID), constAmt(9), "9-to-uppercase-self", 0))
 	acts = append(acts, contractAlphabet(w)...)
 	e := &chainsim.Explorer{Run: run, W: w, Actions: acts, Depth: run.Pick(4, 5), Monitors: []chainsim.Monitor{supplyMonitor},
 		Budget: time.Duration(run.Pick(50, 780)) * time.Second, IgnoreTimeInKey: false}
@@ -36,3 +46,86 @@ func c01(run *ev.Run) {
 	run.Assumptions = []string{"account leaves = every leaf written through StateContext.SetClientState since genesis (keytap seam)", "cold state cache per transition", "grocksdb replaced by the in-memory stand-in"}
 	e.Explore()
 }
+
+// c01fan: part "fan" of C01 — transactions that touch MANY accounts. One contract call pays k times to
+// each of n accounts (existing funded clients first, then never-seen ids); n sweeps the powers of two
+// and their neighbours (per-transaction bookkeeping such as the state context's client-state cache is
+// where a size threshold would sit), k in 1..3 so accounts are credited again after all were touched.
+func c01fan(run *ev.Run) {
+	const existing = 70
+	w := world.New(world.Options{NumClients: existing})
+	kvsc.Register()
+	ids := make([]string, 0, 140)
+	for i := 0; i < existing; i++ {
+		ids = append(ids, w.Actors[fmt.Sprintf("c%d", i)].ID)
+	}
+	for i := 0; len(ids) < 140; i++ {
+		ids = append(ids, world.DetKey(fmt.Sprintf("fan-fresh-%d", i)).ID)
+	}
+	var acts []chainsim.Action
+	ns := []int{1, 2, 3, 7, 8, 9, 15, 16, 17, 31, 32, 33, 61, 62, 63, 64, 65, 66, 127, 128, 129}
+	if !run.Thorough() {
+		ns = []int{1, 2, 15, 16, 17, 31, 32, 33, 61, 62, 63, 64, 65, 66, 127, 128, 129}
+	}
+	for _, n := range ns {
+		for k := 1; k <= 3; k++ {
+			for _, off := range []int{1, 40} { // start inside the existing clients / straddle existing and fresh ids
+				n, k, off := n, k, off
+				if off+n > len(ids) {
+					continue
+				}
+				ops := []kvsc.Op{{Op: "fund"}}
+				for r := 0; r < k; r++ {
+					for i := 0; i < n; i++ {
+						ops = append(ops, kvsc.Op{Op: "pay", K: ids[off+i], V: "7"})
+					}
+				}
+				data, _ := json.Marshal(ops)
+				total := currency.Coin(7 * n * k)
+				acts = append(acts, chainsim.Action{Name: fmt.Sprintf("kv:fan(n=%d,k=%d,from=%d)", n, k, off), Build: func(x *chainsim.Ctx) *world.TxnSpec {
+					f := w.Actors["c0"]
+					return &world.TxnSpec{From: f, To: kvsc.Address, Type: transaction.TxnTypeSmartContract, Value: total + 5, Fee: 3, Nonce: x.Nonce(f) + 1, Data: world.SC("run", json.RawMessage(data))}
+				}})
+			}
+		}
+	}
+	e := &chainsim.Explorer{Run: run, W: w, Actions: acts, Depth: run.Pick(1, 2), Monitors: []chainsim.Monitor{supplyMonitor, fanMonitor},
+		Budget: time.Duration(run.Pick(50, 600)) * time.Second}
+	run.Rule = "every sequence up to the depth bound of contract calls that pay k x 7 tokens to each of n accounts in ONE transaction (n over powers of two and their neighbours up to 129, k in 1..3, recipients inside the existing clients or straddling existing and never-seen ids); oracle after every transition: total supply unchanged, and every account's balance changed by exactly what the executed transfers say"
+	run.Bounds["n"] = ns
+	e.Explore()
+}
+
+// fanMonitor: exact per-account effect of a fan call (supply conservation alone would accept tokens
+// moved to the wrong account).
+func fanMonitor(s *chainsim.Step, v func(key, what string)) {
+	var n, k, off int
+	if s.Err != nil || s.Txn == nil || s.Txn.Status != transaction.TxnSuccess {
+		return
+	}
+	if _, err := fmt.Sscanf(s.Action.Name, "kv:fan(n=%d,k=%d,from=%d)", &n, &k, &off); err != nil {
+		return
+	}
+	pre, post := mon.Accounts(s.PreLeaves), mon.Accounts(s.Post.Leaves)
+	skip := map[string]bool{s.Txn.ClientID: true, kvsc.Address: true, world.SCAddresses["minersc"]: true}
+	credited := 0
+	for id, a := range post {
+		if skip[id] || a.Bal == pre[id].Bal {
+			continue
+		}
+		credited++
+		if int64(a.Bal)-int64(pre[id].Bal) != int64(7*k) {
+			v("C01:fan:recipient-credit-differs-from-transfers", fmt.Sprintf("account %s changed by %d, the call paid it %d", id, int64(a.Bal)-int64(pre[id].Bal), 7*k))
+			return
+		}
+	}
+	if credited != n && !skipOverlap(s, n, off) {
+		v("C01:fan:number-of-credited-accounts", fmt.Sprintf("%d accounts credited, %d paid", credited, n))
+	}
+	if d := int64(post[kvsc.Address].Bal) - int64(pre[kvsc.Address].Bal); d != 5 {
+		v("C01:fan:contract-wallet-not-debited-by-the-sum-paid", fmt.Sprintf("contract wallet changed by %d, expected +5 (value %d in, %d out)", d, 7*n*k+5, 7*n*k))
+	}
+}
+
+// the sender c0 is never among the recipients (ranges start at index 1), so no overlap case exists
+func skipOverlap(*chainsim.Step, int, int) bool { return false }
